@@ -115,6 +115,9 @@ def c05_tables(w):
     w(f"def dataTypeInferIndex : List (List Char) := {strs([k.__name__ for k in E.__DataTypeInferIndex__])}")
     names = [n for n in E.int_datatype.__code__.co_names if n != "DataType"]
     w(f"def intDatatypeCodes : List (List Char) := {strs([getattr(E.DataType, n).code for n in names])}")
+    names = [n for n in E.period_datatype.__code__.co_names if n.startswith("G_")]
+    assert len(names) == 5, names
+    w(f"def periodDatatypeCodes : List (List Char) := {strs([getattr(E.DataType, n).code for n in names])}")
     names = [n for n in E.float_datatype.__code__.co_names if n != "DataType"]
     w(f"def floatDatatypeCodes : List (List Char) := {strs([getattr(E.DataType, n).code for n in names])}")
     w(f"def defaultDatatypeCode : List Char := {chars(E.DataType.from_type(type(None)).code)}")
